@@ -18,6 +18,15 @@ type Hooks struct {
 	Now func() time.Time
 	// Inline makes TaskRunner.Go run its task synchronously on the caller's goroutine.
 	Inline bool
+	// Spawn (optional; ignored when Inline) is called by TaskRunner.Go on the spawning goroutine: it registers the
+	// task as a thread of the controlled scheduler and returns its handle (nil = leave the task free-running).
+	// limit > 0 is the TaskRunner's concurrency limit: Spawn blocks while that many tasks of the caller are live.
+	Spawn func(limit int) TaskHandle
+	// Join is called by TaskRunner.Wait before the real wait: it parks the caller until its tasks have ended.
+	Join func()
+	// Hold(+1/-1) brackets a region in which the calling thread holds a real mutex of sop across scheduling
+	// points (fs.globalReplicationDetailsLocker): a cooperative scheduler must not park the thread there.
+	Hold func(delta int)
 	// IO is consulted at the entry of every file operation of sop's filesystem backend (after the
 	// scheduling point). A non-nil error makes the operation fail with it without executing; the hook may
 	// also terminate the process (crash plans), possibly after performing a partial write itself.
@@ -47,6 +56,31 @@ func Now() time.Time {
 		return h.Now()
 	}
 	return time.Now()
+}
+
+// TaskHandle is used by a scheduler-managed task goroutine: Start first thing, End last thing.
+type TaskHandle interface {
+	Start()
+	End()
+}
+
+func TaskSpawn(limit int) TaskHandle {
+	if h := cur.Load(); h != nil && !h.Inline && h.Spawn != nil {
+		return h.Spawn(limit)
+	}
+	return nil
+}
+
+func TaskJoin() {
+	if h := cur.Load(); h != nil && !h.Inline && h.Join != nil {
+		h.Join()
+	}
+}
+
+func Hold(delta int) {
+	if h := cur.Load(); h != nil && h.Hold != nil {
+		h.Hold(delta)
+	}
 }
 
 func InlineTasks() bool {
